@@ -95,7 +95,7 @@ theorem build_tasks : ∀ (v : View) (st : St), v.core = true → ∀ e, e ∈ (
     · exact Or.inr (by simp [effsOf, h])
   | «show» c a b _ _ => intro st hc; simp [View.core] at hc
   | scope sid d kid _ => intro st hc; simp [View.core] at hc
-  | forRows sel lists row _ => intro st hc; simp [View.core] at hc
+  | forRows en sel lists row _ => intro st hc; simp [View.core] at hc
   | forKeyed sel lists =>
     intro st _ e h
     rw [build_forKeyed] at h ⊢
@@ -306,7 +306,7 @@ theorem render_congr {K : Nat} {ρ ρ' : Nat → Int} (h : ∀ i, i < K → ρ i
     simp only [View.wf, Bool.and_eq_true] at hw
     simp only [render, evalPure_congr h sel hw.1.1.1.1]
   | scope sid d kid _ => intro hw; simp [View.wf] at hw
-  | forRows sel lists row _ => intro hw; simp [View.wf] at hw
+  | forRows en sel lists row _ => intro hw; simp [View.wf] at hw
 
 /-- at an idle point of a state satisfying the leaf invariant the DOM is the fresh render -/
 theorem Inv0.settled {K : Nat} {v : View} {st : St} (h : Inv0 K v st) (hw : v.wf K = true)
